@@ -21,13 +21,13 @@ def wReq (upgrade : List Bytes) : Req :=
 /-- "websocket upgrades are always refused" fails: `Upgrade: WebSocket` (the check is
     case-sensitive) reaches the `/config/` handler. -/
 theorem websocket_refused_full_fails :
-    ∃ (h : Handler) (r : Req), IsWebsocketUpgrade r ∧ Served (serveHTTP count h [] 3 r 0) :=
+    ∃ (h : Handler) (r : Req), IsWebsocketUpgrade r ∧ Served (serveReal count h [] 3 r 0) :=
   ⟨wHandler, wReq [str "WebSocket"], by decide⟩
 
 /-- … and so does a lower-case `websocket` in a second Upgrade value (only the first is read). -/
 theorem websocket_refused_later_value_full_fails :
     ∃ (h : Handler) (r : Req), IsWebsocketUpgrade r ∧
-      containsSub (asciiLower (firstUpgrade r)) sWebsocket = false ∧ Served (serveHTTP count h [] 3 r 0) :=
+      containsSub (asciiLower (firstUpgrade r)) sWebsocket = false ∧ Served (serveReal count h [] 3 r 0) :=
   ⟨wHandler, wReq [str "h2c", str "websocket"], by decide⟩
 
 /-- `"origins": ["", "localhost:2019"], "enforce_origin": true` -/
@@ -40,7 +40,7 @@ def wCfgEmptyOrigin : AdminCfg :=
 theorem origin_missing_refused_full_fails :
     ∃ (cfg : AdminCfg) (a : Addr) (r : Req),
       SpecificAddress a ∧ cfg.enforceOrigin = true ∧ OriginMissing r ∧ r.refererUrl = ⟨true, [], []⟩ ∧
-      Served (serveHTTP count (newAdminHandler cfg a false []) [] 3 r 0) :=
+      Served (serveReal count (newAdminHandler cfg a false []) [] 3 r 0) :=
   ⟨wCfgEmptyOrigin, exAddr, wReq [], by decide⟩
 
 end CaddyModel.C13
